@@ -72,9 +72,19 @@ def check(ctx):
     # join of the scope owner too: if it could be cancelled, the handle - already taken out of the shared state - is dropped by the unwind,
     # the deferred join finds nothing to wait for and the scope is left while the child runs)
     JH = Call(r"may::join::JoinHandle::join", transitive=False)
-    joiners = sorted(g.id for g in ctx.prog.fns.values() if g.id.startswith(SC + "::") and g.id != JS and ctx.an.sites(g, JH, "must"))
+    # (F26) the same holds for cqueue::scope: Cqueue::check_panic joins the select coroutine whose handle it took out of `selectors`
+    joiners = sorted(g.id for g in ctx.prog.fns.values() if (g.id.startswith(SC + "::") or g.id.startswith("may::cqueue::")) and g.id != JS and ctx.an.sites(g, JH, "must"))
     for gid in joiners:
         ctx.order(gid, GUARD, JH, "scope/every-child-join-cancel-masked", "a join of a scoped child outside JoinState::join also runs with the owner's cancel disabled", rule="R-EXIT")
+        g = ctx.prog.fn(gid)
+        js = ctx.an.sites(g, JH, "must")
+        gd = set(pt for pt in g.points() if g.is_term(pt) and g.node(pt)["t"] == "drop" and "CancelDisableGuard" in g.node(pt)["ty"] and not g.is_cleanup(pt.bb))
+        r = ctx.an.reach(g, [Point(0, 0)], blocked=js)
+        early = [x for x in gd if x in r]
+        ctx.ob("R-EXIT", gid, "scope/every-child-join-guard-lives-across", bool(gd) and not early, "the cancel-disable guard lives across the join" if gd and not early else
+               "the cancel-disable guard is released before the join (or never held)", g.where(sorted(js)[0]) if js else g.where())
+    if not any(j.startswith("may::cqueue::") for j in joiners):
+        ctx.missing("R-EXIT", "may::cqueue", "scope/every-child-join-cancel-masked", "no function of may::cqueue joins a select coroutine's JoinHandle any more")
     ctx.ob("R-EXIT", SC, "scope/child-joins-enumerated", True, "functions of may::scoped that join a child's JoinHandle directly: %s" % ([JS] + joiners), None, nontrivial=False)
     # the shared state says `Joined` only where the join is performed
     makers = sorted(set(g.id.split("::{closure")[0] for g in ctx.prog.fns.values() if g.id.startswith("may::") and ctx.an.sites(g, Agg(SC + "::JoinState", "Joined", transitive=False), "may")))
